@@ -24,10 +24,39 @@ package zip
 //@   ensures (result == nil) == (cf.SizeError == nil && len(cf.Invalid) == 0)
 //@   props C12 C05 C17
 
-//@ func collisionChecker.check
-//@   trusted "recursion over parent directories with a map keyed by folded names; only its frame is used here (it touches nothing but its own map)"
-//@   modifies map.collisionChecker
+//@ # strToFold: the fast path returns the text itself only for ASCII text without upper-case letters; everything
+//@ # else goes through the rune-by-rune folding loop
+//@ func strToFold
+//@   modifies ghost.WRITTEN
 //@   allocates
+//@   let FASTI int = i @after loop 0
+//@   ensures [C12, C17, C05] fast_path_exactly_for_lower_ascii: (FASTI == len(s)) == NOUPASCII(s)
+//@   ensures [C12, C17, C05] fast_path_is_identity: FASTI == len(s) ==> result == s
+//@   ensures_assumed "doc comment of strToFold: its result is the canonical case-folded form; for the fast path this follows from fast_path_is_identity and the axiom fold_ascii, the rune loop through unicode.SimpleFold is not verified" result == FOLDSTR(s)
+//@   loop 0:
+//@     invariant 0 <= i && i <= len(s)
+//@     invariant forall k int :: 0 <= k && k < i ==> s[k] < 128 && !(65 <= s[k] && s[k] <= 90)
+//@     decreases len(s) - i
+//@   loop 1:
+//@     invariant 0 <= @pos && @pos <= len(s) && FASTI < len(s) && !NOUPASCII(s)
+//@     decreases len(s) - @pos
+//@   loop 2:
+//@     invariant FASTI < len(s) && !NOUPASCII(s)
+//@   props C12 C17 C05
+
+//@ # collisionChecker.check(p, isDir) == nil: p is now recorded under its folded name with exactly this spelling and kind,
+//@ # so is its parent directory (and, by the same contract, every ancestor), and nothing recorded before was changed;
+//@ # a different spelling or kind recorded earlier, or a second entry for a file, is an error
+//@ func collisionChecker.check
+//@   requires cc != nil && len(p) > 0 && p[0] != '/'
+//@   decreases len(p)
+//@   modifies map.collisionChecker, ghost.WRITTEN
+//@   allocates
+//@   ensures [C12, C17, C05] recorded: result == nil ==> has(cc, FOLDSTR(p)) && cc[FOLDSTR(p)].path == p && cc[FOLDSTR(p)].isDir == isDir
+//@   ensures [C12, C17, C05] parent_recorded: result == nil && path.Dir(p) != "." ==> has(cc, FOLDSTR(path.Dir(p))) && cc[FOLDSTR(path.Dir(p))].path == path.Dir(p) && cc[FOLDSTR(path.Dir(p))].isDir
+//@   ensures [C12, C17, C05] earlier_entries_kept: forall k string :: old(has(cc, k)) ==> has(cc, k) && cc[k] == old(cc[k])
+//@   ensures [C12, C17, C05] other_spelling_is_collision: old(has(cc, FOLDSTR(p))) && old(cc[FOLDSTR(p)].path) != p ==> result != nil
+//@   ensures [C12, C17, C05] file_twice_is_collision: old(has(cc, FOLDSTR(p))) && (!isDir || !old(cc[FOLDSTR(p)].isDir)) ==> result != nil
 //@   ensures result == nil || fresh(result)
 //@   props C12 C05 C17
 
@@ -43,7 +72,7 @@ package zip
 //@ spec func ISFILEENTRY(n string, prefix string) bool = len(n) > len(prefix) && !strings.HasSuffix(n[len(prefix):], "/")
 //@ func checkZip
 //@   requires f != nil
-//@   modifies map.collisionChecker, []FileError
+//@   modifies map.collisionChecker, []FileError, ghost.WRITTEN
 //@   ensures [C12] entries_valid: result2 == nil ==> result0 != nil && (forall i int :: 0 <= i && i < len(result0.File) ==> result0.File[i] != nil && ENTRYOK(result0.File[i].Name, SPR2("%s@%s/", m.Path, m.Version)))
 //@   ensures [C12] err_is_report: result2 == nil ==> result1.SizeError == nil && len(result1.Invalid) == 0
 //@   ensures [C12] sizes_bounded: result2 == nil ==> (forall i int :: 0 <= i && i < len(result0.File) && ISFILEENTRY(result0.File[i].Name, SPR2("%s@%s/", m.Path, m.Version)) ==> 0 <= asint64(result0.File[i].UncompressedSize64) && asint64(result0.File[i].UncompressedSize64) <= MaxZipFile)
